@@ -269,14 +269,29 @@ CHECKS["C07"] = dict(
          "inconclusive (exit 2), not detected. The untagged WorkingDirectory Deserialize is a hook. LayerContentMetadata is C01/C02's, package "
          "descriptors C14's. " + BASE_NOTE)
 
+CHECKS["C15"] = dict(
+    text="Bounded model checking from MIR of libcnb-cargo's package::command::execute (package-dir resolution, build-order loop with "
+         "remove_dir_all + create_dir_all of every output directory, stdout), create_packaged_buildpack_dir_resolver, get_dependencies with "
+         "petgraph's DfsPostOrder, package_buildpack, determine_buildpack_kind, package_libcnb_buildpack, assemble_buildpack_directory, "
+         "create_file_symlink, package_composite_buildpack and normalize_package_descriptor, over the file-system model. cargo is a stub by "
+         "contract (locate-project -> workspace root; metadata; build succeeds and leaves the binaries under the target dir); the directory "
+         "walk + per-buildpack toml reading is replaced by handing the workspace's nodes to the real create_dependency_graph. Workspaces: "
+         "libcnb.rs buildpack with 1 or 2 binary targets [+ a second one] [+ a composite depending on libcnb:a/x, a relative path and a "
+         "docker image]; invoked from the root, a buildpack's or the composite's directory; dev/release; default, `out-dir` or `out dir` "
+         "package dir. Self-composition: the same invocation is executed with the output directories absent and pre-seeded (empty dir | "
+         "complete old output | partial output without buildpack.toml | foreign files only; quick: one directory varied, thorough: every "
+         "selected directory independently; file contents SMT strings). Decided per path: both runs return the same result and stdout, "
+         "leave the same tree under the package directory, and the clean run has exactly the statement's layout (byte-identical "
+         "buildpack.toml, bin/build, bin/detect -> build, additional binaries, package.toml with the composite's dependencies normalised "
+         "against its source directory), only for the selected buildpacks and their dependencies; stdout = the selected directories.",
+    design_ref="DESIGN.md §5 C15, §11",
+    technique="symbolic execution of rustc MIR (mirsym) over a file-system model, self-composition of a clean and a pre-seeded run + z3; cargo and the directory walk as stubs by contract; witness replay with the real cargo-libcnb binary on generated workspaces (host target)",
+    note="Outside: what cargo compiles, failing cargo builds, the ignore crate's walk/.gitignore semantics, reading buildpack.toml/package.toml into "
+         "graph nodes (C08/C13), cross-compile assistance, a regular file or symlink at an output directory's own path, the two stderr helpers "
+         "(floating-point size formatting). Known finding: composite packaging fails when the package dir is not URI-safe. " + BASE_NOTE)
+
 NOT_YET = "check not built yet in this round (see DESIGN.md §9 build order); no claim is made"
-NOT_APPLICABLE = {
-    "C15": "Not claimed. The statement quantifies over generated Cargo workspaces whose differences reach libcnb-cargo only through external "
-           "processes and foreign crates (cargo locate-project / metadata / build, the ignore crate's walk, cross-compile probing); a solver-based "
-           "claim would be about execute()'s glue over a stubbed cargo (output-dir reset, assemble_buildpack_directory, stdout). That harness "
-           "(self-composition of a pre-seeded vs. an empty output directory over the file-system model) fits the engine but was not built in this "
-           "round; the parts shared with other properties are checked there (build order: C13, package.toml normalisation: C14, strict parsing: C08). "
-           "See DESIGN.md §6."}
+NOT_APPLICABLE = {}
 ALL = [f"C{i:02d}" for i in range(1, 21)]
 
 
